@@ -99,6 +99,11 @@ for _k in ("add", "sub", "rsub"):
     for _s in ("far_p", "far_m"):
         ob("c03::acc4_%s_%s" % (_k, _s), "C03", tier="rotated", cls="leaf", timeout=9000, functions=["Algorithm 4 error bound, far case"], family="acc4_" + _k, gap=1000 if _s == "far_p" else -1000)
 
+for _g in list(range(53, 113)) + [1000]:
+    ob("c04::acc9_" + ("far" if _g == 1000 else "gap_%d" % _g), "C04", tier="rotated", cls="leaf", timeout=5400,
+       functions=["Algorithm 9 error bound (TwoFloat * f64) per gap between the multiplicand's words"], family="acc9", gap=_g)
+ob("c04::acc9_cases_cover", "C04", tier="thorough", cls="lemma", timeout=300)
+
 # ------------------------------------------------------------------ C02 (leaves; also carry C01, C03)
 def _nm(d):
     return ("m%d" % -d) if d < 0 else ("p%d" % d)
@@ -290,8 +295,8 @@ def select(prop, tier, seed=0):
         rng = random.Random(seed)
         for fam in sorted({o.get("family") for o in ALL if o["tier"] == "rotated" and o["props"][0] == prop}):
             cand = [o for o in ALL if o.get("family") == fam and o["tier"] == "rotated"]
-            fixed = [o for o in cand if o["gap"] in (0, 1, -1, 53, -53)]
-            rest = [o for o in cand if o not in fixed and abs(o["gap"]) <= 60]
+            fixed = [o for o in cand if o["gap"] in (0, 1, -1, 53, -53, 54, 1000)]
+            rest = [o for o in cand if o not in fixed and (abs(o["gap"]) <= 60 or fam == "acc9")]
             if os.environ.get("VERIF_ALL_GAPS"):
                 rows += cand      # full sweep (hours): every gap and both far cases of every variant
             else:
